@@ -38,7 +38,7 @@ def in_finish(base_r, call, pos):
 
 def run(chk):
     chk.prove()
-    nbase, per_case, nmax = (250, 24, 24) if chk.quick() else (6000, 200, 60)
+    nbase, per_case, nmax = (250, 24, 24) if chk.quick() else (2500, 100, 48)
     # fault-free base runs (not counted twice: their coverage is recorded by run_stream)
     cases, lines, impl, parsed, fvh, fvm = recon.run_stream(chk, nbase, nmax)
     rnd = random.Random(chk.seed + 1)
